@@ -98,6 +98,11 @@ is_assignable(CPPType *type) {
   case CPPDeclaration::ST_typedef:
     return is_assignable(type->as_typedef_type()->_type);
 
+  case CPPDeclaration::ST_array:
+    // An array is assigned by copying its elements, for which we need to know
+    // how many there are.
+    return type->as_array_type()->_bounds != nullptr;
+
   default:
     return true;
   }
